@@ -221,7 +221,7 @@ def make_env(kind, n, stream_cls=Stream):
         data, _ = encode_multipart(b, [{'name': 'a', 'value': b'v' * (120 + n % 9)}, {'name': 'b', 'value': b'w' * 90}], b'', b'\r\n')
         return _e('POST', '/form', q, stream=stream_cls(data), content_length=len(data), headers={'Content-Type': 'multipart/form-data; boundary=' + b})
     if kind == 'badjson':
-        data = b'{"a": %d' % n
+        data = b'{' + b' ' * (n % 11) + b'"a": %d' % n          # the position reported by the JSON error differs from request to request
         return _e('POST', '/json', q, stream=stream_cls(data), content_length=len(data), headers={'Content-Type': 'application/json', 'Accept': 'application/json' if n % 2 else '*/*'})
     if kind == 'crash':
         return _e('GET', '/crash', q)
